@@ -315,6 +315,3 @@ func pubsText(ps []mqttPublish) string {
 	}
 	return clip(s, 600)
 }
-
-// checkIsolation is filled in by the C17 events (see isolation.go).
-func (m *monitors) checkIsolation(r *run, dts map[string]*dtInfo) {}
